@@ -24,8 +24,9 @@ OPT = {"swift_prefix": "--swift-prefix", "kotlin_prefix": "--kotlin-prefix", "ja
 TOML_KEY = {"swift_prefix": ("swift", "prefix"), "kotlin_prefix": ("kotlin", "prefix"), "java_package": ("kotlin", "package"),
             "scala_package": ("scala", "package"), "go_package": ("go", "package")}
 EXPOSES = {"swift": ["swift_prefix"], "kotlin": ["kotlin_prefix", "java_package"], "scala": ["scala_package"], "go": ["go_package"]}
-SRC = ("#[typeshare]\npub struct Foo { pub user_id: u32, pub m: Mapped, pub list: Option<Vec<u32>>, pub home_url: String, pub m2: Mapped2, pub unit: () }\n"
-       "#[typeshare]\npub struct Gen<T> { pub v: T }\n")
+SRC = ("#[typeshare]\npub struct Foo { pub user_id: u32, pub m: Mapped, pub list: Option<Vec<u32>>, pub home_url: String, pub m2: Mapped2, pub unit: (),\n"
+       "    pub id2: u32, pub url_2: String, pub by_account: HashMap<AccountId, u32>, pub page: Gen<AccountId> }\n"
+       "#[typeshare]\npub struct Gen<T> { pub v: T }\n#[typeshare]\npub struct AccountId { pub v: u32 }\n")
 # MC_C20!TableProfiles: the file-only tables written into every configuration file of a cell
 PROFILES = {
     "basic": {
@@ -127,8 +128,14 @@ def observe(lang, text, profile="basic"):
     elif lang == "go":
         obs["go_package"] = o["package"] or ""
         idents = [m["ident"] for m in foo["members"]]
-        shows = {"ID": "UserID" in idents, "URL": "HomeURL" in idents}
-        tobs["uppercase_acronyms"] = [a for a in t.get("uppercase_acronyms", []) if shows[a]]
+        names = [d["name"] for d in o["defs"]]
+        by = {m["key"]: m["ty"] for m in foo["members"]}
+        # every place where the word occurs: at the end of an identifier, before a digit, in a type's own name, and where that type
+        # is referred to as a map key and as a generic argument
+        places = {"ID": ["UserID" in idents, "ID2" in idents, "AccountID" in names, by.get("by_account", {}).get("key", {}).get("n") == "AccountID",
+                         [a.get("n") for a in by.get("page", {}).get("args", [])] == ["AccountID"]],
+                  "URL": ["HomeURL" in idents, "URL2" in idents]}
+        tobs["uppercase_acronyms"] = [a if all(places[a]) else f"{a}:not-at-places-{[i for i, okp in enumerate(places[a]) if not okp]}" for a in t.get("uppercase_acronyms", [])]
         if "no_pointer_slice" in t:
             lst = [m for m in foo["members"] if m["key"] == "list"][0]
             tobs["no_pointer_slice"] = not lst["pointer"]
